@@ -106,7 +106,9 @@ def rdiff_task(task):
     sh.procs += 1
     outs2, _ = align_lines(lines, r2)
     # and both in one format: the sign is printed once, in front; a repeated %rS is the same number again
-    r3 = run(argv[:-1] + ["%rS|%S|%rS"], stdin=("\n".join(lines) + "\n").encode(), cpu=30, wall=120)
+    # (with the real or with the plain specifier last, task by task)
+    fmt3 = "%rS|%S|%rS" if (a[0] + len(bs)) % 2 else "%rS|%S"
+    r3 = run(argv[:-1] + [fmt3], stdin=("\n".join(lines) + "\n").encode(), cpu=30, wall=120)
     sh.procs += 1
     sh.check_san(r3, "san", "leap:rdiff")
     outs3, _ = align_lines(lines, r3)
@@ -124,13 +126,13 @@ def rdiff_task(task):
         sa = "inserted" if a[1] else side(L, a[0])[1]
         sb = "inserted" if b[1] else side(L, b[0])[1]
         c = ("rdiff", kal, "+" if sgn > 0 else "-", "leaps%d" % min(nl, 3), sa, sb) + (("beyond-2^31",) if hi - lo >= 2 ** 31 else ())
-        want3 = "%d|%d|%d" % (want_r, abs(want_s), abs(want_r))
+        want3 = "%d|%d|%d" % (want_r, abs(want_s), abs(want_r)) if fmt3.count("|") == 2 else "%d|%d" % (want_r, abs(want_s))
         if got3 == want3:
             sh.ok("leap-diff", c + ("one-format",))
         else:
             sh.bad("leap-diff", "leap:rdiff3:%s%s:%s:a=%s:b=%s" % ("" if kal == "ymd" else kal + ":", c[2], "with-leaps" if nl else "no-leaps", sa, sb),
-                   "ddiff %s %s -f '%%rS|%%S|%%rS' -> %r, expected %s (%d leap second(s) in between)" % (civ(*a, kal=kal), civ(*b, kal=kal), got3, want3, nl),
-                   dict(argv=argv[:-1] + ["%rS|%S|%rS"], input=civ(*b, kal=kal), expected=want3, observed=got3), cls=c + ("one-format",))
+                   "ddiff %s %s -f '%s' -> %r, expected %s (%d leap second(s) in between)" % (civ(*a, kal=kal), civ(*b, kal=kal), fmt3, got3, want3, nl),
+                   dict(argv=argv[:-1] + [fmt3], input=civ(*b, kal=kal), expected=want3, observed=got3), cls=c + ("one-format",))
         if got == "%d|%d" % (want_r, want_s):
             sh.ok("leap-diff", c)
         else:
@@ -159,8 +161,10 @@ def radd_task(task):
     if kal == "epoch":
         ts = [t for t in ts if not t[1]]
     lines = [civ(*t, kal=kal) for t in ts]
+    # the same count of SI seconds as real hours or real minutes where it is a whole number of them
+    dtxt = "%+drh" % (n // 3600) if n % 3600 == 0 and n // 3600 % 2 == 0 else "%+drm" % (n // 60) if n % 60 == 0 else "%+drs" % n
     argv = [str(bindir / "dadd")] + (["-i", "%s", "-f", "%s"] if kal == "epoch" else []) + ["--"] + \
-        (["+0s"] if kal == "epoch" and n < 0 else []) + ["%+drs" % n]        # -i %s would read a leading -N as the operand
+        (["+0s"] if kal == "epoch" and n < 0 else []) + [dtxt]        # -i %s would read a leading -N as the operand
     r = run(argv, stdin=("\n".join(lines) + "\n").encode(), cpu=30, wall=120)
     sh.procs += 1
     sh.check_san(r, "san", "leap:radd")
@@ -176,8 +180,42 @@ def radd_task(task):
             sh.ok("leap-add", c)
         else:
             sh.bad("leap-add", "leap:radd:%s:%s:%s%s" % (c[1], c[2], c[3], (":from-inserted" if tlab else "") + (":" + kal if kal != "ymd" else "")),
-                   "dadd %s %+drs -> %r, %d SI seconds later is %s" % (civ(t, tlab, kal), n, got, n, want),
+                   "dadd %s %s -> %r, %d SI seconds later is %s" % (civ(t, tlab, kal), dtxt, got, n, want),
                    dict(argv=argv, input=civ(t, tlab, kal), expected=want, observed=got), cls=c)
+    return sh
+
+
+def moadd_task(task):
+    """real seconds after month arithmetic in the same invocation: 05-31 +1mo is 06-31 until it is printed, the leap table
+    has to be asked about the 30th"""
+    bindir, year = task
+    sh = Shard()
+    L = leap.Leaps()
+    j30 = (date(year, 6, 30).toordinal() - cal.ORD_UNIX) * 86400
+    cases = []
+    for sod in (86399, 86398, 86395, 43200):
+        for n in (1, 2, 3, 6, 86400, 86401):
+            cases.append(("%04d-05-31T%s" % (year, civ(sod)[11:]), ["+1mo", "%+drs" % n], j30 + sod, n))
+            cases.append(("%04d-03-31T%s" % (year, civ(sod)[11:]), ["+3mo", "%+drs" % n], j30 + sod, n))
+    for sod in (0, 1, 5):
+        for n in (1, 2, 6, 7, 86401):
+            cases.append(("%04d-07-31T%s" % (year, civ(sod)[11:]), ["-1mo", "%+drs" % -n], j30 + sod, -n))
+    for src, durs, base, n in cases:
+        argv = [str(bindir / "dadd"), src, "--"] + durs
+        r = run(argv, cpu=10, wall=60)
+        sh.procs += 1
+        sh.check_san(r, "san", "leap:moadd")
+        got = r.out.decode("latin-1").rstrip("\n")
+        u, lab = L.add_si(base, n)
+        want = civ(u, lab)
+        leapyear = (j30 + 86400) in L.steps
+        c = ("moadd", "+" if n > 0 else "-", "leap-june" if leapyear else "plain-june", "lands-on-leap" if lab else "regular")
+        if got == want:
+            sh.ok("leap-add", c)
+        else:
+            sh.bad("leap-add", "leap:moadd:%s:%s:%s" % (c[1], c[2], c[3]),
+                   "dadd %s %s -> %r; the month step gives %s, %d SI seconds from there is %s" % (src, " ".join(durs), got, civ(base), n, want),
+                   dict(argv=argv, expected=want, observed=got), cls=c)
     return sh
 
 
@@ -243,7 +281,7 @@ def zradd_task(task):
 def _dispatch(t):
     if t[0] == "inv":
         return inv_task(t[1])
-    return {"offs": offs_task, "rdiff": rdiff_task, "radd": radd_task, "zradd": zradd_task}[t[0]](t[1])
+    return {"offs": offs_task, "rdiff": rdiff_task, "radd": radd_task, "zradd": zradd_task, "moadd": moadd_task}[t[0]](t[1])
 
 
 def inv_task(task):
@@ -321,10 +359,10 @@ def main(tier, seed):
     # still land on, just before or just after one
     spans = [L.steps[j] - L.steps[i] + d for i in range(len(L.steps)) for j in range(i + 1, len(L.steps)) for d in range(-3, 4)]
     spans = rng.sample(spans, 12 if quick else 1500) + [63072001, 94608001, 142128001, L.steps[-1] - L.steps[0] + 1]
-    for n in [1, 2, 3, 4, 5, 6, 86400, 86401, 31536000, 63072000] + spans + [rng.randrange(1, 10 ** 8) for _ in range(6 if quick else 300)]:
+    for n in [1, 2, 3, 4, 5, 6, 60, 3600, 7200, 86400, 86401, 31536000, 63072000] + spans + [rng.randrange(1, 10 ** 8) for _ in range(6 if quick else 300)]:
         for s in (1, -1):
             tasks.append(("radd", (bindir, s * n, add_ts + ins + [rng.randrange(L.ts[0] + 100, L.ts[-1] + 10 ** 8) for _ in range(40)])))
-            if not quick or n in (1, 2, 86401, 63072000, 63072001) or n > 10 ** 6 and n % 3 == 0:
+            if not quick or n in (1, 2, 60, 7200, 86401, 63072000, 63072001) or n > 10 ** 6 and n % 3 == 0:
                 for kal in KALS[1:]:
                     tasks.append(("radd", (bindir, s * n, add_ts + ins + [rng.randrange(L.ts[0] + 100, L.ts[-1] + 10 ** 8) for _ in range(10)], kal)))
     # the same additions with the operand given in a zone's wall clock and further durations next to the real seconds
@@ -335,15 +373,19 @@ def main(tier, seed):
                     tasks.append(("zradd", (bindir, zone, pre, s * n, post,
                                             [t + d for t in rng.sample(L.steps, 8 if quick else len(L.steps)) for d in (-5, -2, -1, 0, 1, 3)] +
                                             [rng.randrange(L.ts[0] + 100, L.ts[-1] + 10 ** 8) for _ in range(10)])))
+    # real seconds behind a month step that leaves a 31st of June standing
+    for year in sorted(set(date.fromordinal(t // 86400 + cal.ORD_UNIX - 1).year for t in L.steps if date.fromordinal(t // 86400 + cal.ORD_UNIX).month == 7)
+                       | {1980, 2011, 2013, 2100}):
+        tasks.append(("moadd", (bindir, year)))
     for sh in core.pmap(_dispatch, tasks):
         ctx.merge(sh)
     ctx.rule = ("events: (0) dconv --from-zone TAI|GPS for stamps -1..+38 s around every table entry (the inverse mapping); (1) dconv --zone TAI|GPS at every table entry -2..+2 s and at every inserted second, interval midpoints, year starts to 4093, "
                 "2^31 and 2^32 +-1, random: the applied offset must be the table value (TAI-UTC of the last entry <= t; "
                 "GPS = TAI-19 from 1980-01-06); (2) ddiff A B -f '%%rS|%%S' on ordered pairs of boundary instants: real "
                 "seconds = UTC difference + leap seconds in (A,B], antisymmetric, also for operands more than 2^31 and 2^32 s apart, with %%rS|%%S|%%rS in one format, and with either operand an inserted second 23:59:60; (3) dadd DT +-Nrs for instants -5..+5 s "
-                "around every inserted second (and from the inserted seconds themselves) x N in {1..6, 86400, 86401, 1 y, 2 y, random}: lands N SI seconds later, "
+                "around every inserted second (and from the inserted seconds themselves) x N in {1..6, 60, 3600, 7200, 86400, 86401, 1 y, 2 y, random} (written as Nrs, or as real minutes/hours where whole): lands N SI seconds later, "
                 "23:59:60 exactly on inserted seconds; N also the distance between any two insertions +-3 s; (4) the same with the operand in a zone's wall clock "
-                "(dadd --from-zone Z -- [Kd] Nrs [0d], %d zones): real seconds count on the UTC line. (2) and (3) also with the date-times written as ymcw, ywd, yd and as epoch seconds (-i %%s; an inserted second then reads as the following midnight). Oracle = lib/leap-seconds.list (%d entries, %d insertions). "
+                "(dadd --from-zone Z -- [Kd] Nrs [0d], %d zones): real seconds count on the UTC line; (5) dadd Y-05-31T.. +1mo +Nrs and Y-07-31T.. -1mo -Nrs for every year with an insertion on June 30 (and four without). (2) and (3) also with the date-times written as ymcw, ywd, yd and as epoch seconds (-i %%s; an inserted second then reads as the following midnight). Oracle = lib/leap-seconds.list (%d entries, %d insertions). "
                 "distinct_nontrivial = distinct (monitor, sign/zone, era or leaps crossed, side of the boundary)" %
                 (len(ZONES), len(L.ts), len(L.steps)))
     ctx.assumptions = ["TAI-UTC before 1972-01-01 is taken as the table's first value (10 s)",
